@@ -547,6 +547,9 @@ def verdictRun (s : S) (o : String) (t : List String) : S × String :=
       let scl := match h.lmin with
         | some l => if l < 0.0999 then "_small_scale" else if l > 10 then "_large_scale" else ""
         | none => ""
+      -- ... and the location: a minimiser with a coordinate beyond 100 in magnitude (the generator keeps |x| <= 6)
+      let far := h.xs.any (fun x => Float.abs x > 100)
+      let scl := if scl == "" && far then "_far_location" else scl
       let sfx := if touched then "_touching_bound" else scl
       if !Spec.convergedGap cur fstar bound then
         (s1, "FAIL:convergence" ++ (if s.kind == "simplex" && !touched then
